@@ -33,6 +33,7 @@ type Step struct {
 	Backend string `json:"backend"` // backend slot name, "unknown" or ""
 	Req     string `json:"req"`     // own | foreign | unknown | empty
 	Path    string `json:"path,omitempty"`
+	Variant int    `json:"variant,omitempty"` // add: 0 = the slot's own definition, 1 = another agent account, 2 = another end user
 }
 
 type Case struct {
@@ -88,13 +89,40 @@ func genCase(t *rapid.T) Case {
 			c.Steps = append(c.Steps, Step{Kind: "add", Caller: "header-admin", Backend: s})
 		}
 	}
+	// generator-side view of which agent account each slot is currently registered for
+	orig := map[string]string{"B1": "agent1", "B2": "agent2", "B3": "agent3", "B4": "agent1"}
+	alt := map[string]string{"B1": "agent2", "B2": "agent3", "B3": "agent1", "B4": "agent2"}
+	variant := map[string]int{}
 	n := rapid.IntRange(6, 30).Draw(t, "n")
 	for i := 0; i < n; i++ {
+		if rapid.IntRange(0, 7).Draw(t, "rotationProbe") == 0 {
+			// an agent account works, the administrator hands the backend id to another account, the old account tries again
+			slot := rapid.SampledFrom(slotNames).Draw(t, "rslot")
+			cur, nv := orig[slot], 1
+			if variant[slot] == 1 {
+				cur, nv = alt[slot], 0
+			}
+			kind := rapid.SampledFrom([]string{"poll", "fetch", "respond"}).Draw(t, "rkind")
+			c.Steps = append(c.Steps,
+				Step{Kind: "add", Caller: "header-admin", Backend: slot, Variant: variant[slot]},
+				Step{Kind: "user", Caller: map[string]string{"B1": "u1", "B2": "u2", "B3": "u3", "B4": "u2"}[slot], Path: map[string]string{"B1": "/one", "B2": "/two", "B3": "/shared", "B4": "/four"}[slot]},
+				Step{Kind: "poll", Caller: cur, Backend: slot, Req: "own"},
+				Step{Kind: "add", Caller: rapid.SampledFrom([]string{"header-admin", "oauth-admin"}).Draw(t, "radmin"), Backend: slot, Variant: nv},
+				Step{Kind: kind, Caller: cur, Backend: slot, Req: "own"})
+			variant[slot] = nv
+			continue
+		}
 		st := Step{Kind: rapid.SampledFrom([]string{"user", "user", "poll", "poll", "fetch", "fetch", "respond", "respond", "add", "list", "delete"}).Draw(t, "kind")}
 		switch st.Kind {
 		case "add", "delete":
 			st.Caller = rapid.SampledFrom(adminCaller).Draw(t, "acaller")
 			st.Backend = rapid.SampledFrom(slotNames).Draw(t, "slot")
+			if st.Kind == "add" {
+				st.Variant = rapid.SampledFrom([]int{0, 0, 1, 1, 2}).Draw(t, "variant")
+				if (st.Caller == "header-admin" || st.Caller == "oauth-admin") && st.Variant != 2 {
+					variant[st.Backend] = st.Variant
+				}
+			}
 		case "list":
 			st.Caller = rapid.SampledFrom(adminCaller).Draw(t, "acaller")
 		case "poll", "fetch", "respond":
@@ -215,6 +243,14 @@ func runCase(t vh.TB, c *Case) vh.Outcome {
 		switch st.Kind {
 		case "add":
 			b := slots[st.Backend]
+			switch st.Variant {
+			case 1: // the same backend id handed to another agent account
+				b.agent = map[string]string{"agent1@example.com": "agent2@example.com", "agent2@example.com": "agent3@example.com", "agent3@example.com": "agent1@example.com"}[b.agent]
+				o.Classes = append(o.Classes, "re-registration-with-another-agent")
+			case 2: // the same backend id handed to another end user
+				b.endUser = map[string]string{"u1@example.com": "u2@example.com", "u2@example.com": "u1@example.com", "allUsers": "u1@example.com"}[b.endUser]
+				o.Classes = append(o.Classes, "re-registration-with-another-end-user")
+			}
 			body, _ := json.Marshal(map[string]any{"id": b.id, "backendUser": b.agent, "endUser": b.endUser, "pathPrefixes": []string{b.prefix}})
 			resp := r.Do("api", "POST", "/api/backends", nil, body, identity(st.Caller), 10*time.Second)
 			if resp.Err != nil {
@@ -551,7 +587,7 @@ func runCase(t vh.TB, c *Case) vh.Outcome {
 
 func TestPropAccessControl(t *testing.T) {
 	defer closeRig()
-	vh.Rapid(t, vh.Scale(150, 2000), func(rt *rapid.T) {
+	vh.Rapid(t, vh.Scale(100, 2000), func(rt *rapid.T) {
 		c := genCase(rt)
 		rec.Check(rt, &c, func() vh.Outcome { return vh.Confirm(func(int) vh.Outcome { return runCase(rt, &c) }) })
 	})
